@@ -247,6 +247,7 @@ class UnusedTranslator:
             mapping[head] = UnusedTranslator.Mapper(
                 UniqueVariables(rules[0]), prg.index(rules[0]), list(hlit.atom.symbol.arguments), blit.atom.symbol
             )
+            break  # one copy per round: a replacement atom is not mapped again (chains a <- b <- c)
 
         used: set[int] = set()
 
